@@ -11,7 +11,7 @@ def run_case(case):
 	dists = np.array(case['dists'], dtype=np.float32)
 	db = SimpleNamespace(genomes=genomes)
 	N = int(case.get('N', 10))
-	item = get_result_item(db, QueryParams(report_closest=N), dists, QueryInput('q'))
+	item = get_result_item(db, QueryParams(report_closest=N, classify_strict=bool(case.get('strict'))), dists, QueryInput('q'))
 	dl = [float(x) for x in dists]
 	order = sorted(range(len(dl)), key=lambda i: (dl[i], i))[:N]
 	exp = {'indices': order, 'distances': [dl[i] for i in order], 'taxa': [spec_match(case, case['genomes'][i], dl[i]) for i in order],
@@ -35,7 +35,16 @@ def cases(tier, seed):
 		n = rnd.choice([1, 2, 3, 8, 20, 50, 130])
 		vals = [rnd.choice([0.0, .25, .5, .75, 1.0]) for _ in range(3)]
 		dists = [rnd.choice(vals) if rnd.random() < .8 else rnd.random() for _ in range(n)]
-		yield {'taxa': taxa, 'genomes': [rnd.randrange(nt) for _ in range(n)], 'dists': dists, 'N': rnd.choice([1, 2, 5, 10, n, n + 3])}
+		yield {'taxa': taxa, 'genomes': [rnd.randrange(nt) for _ in range(n)], 'dists': dists, 'N': rnd.choice([1, 2, 5, 10, n, n + 3]), 'strict': rnd.random() < .5}
+	# ties between genomes of different taxa / thresholds, both classification modes (the closest match is the FIRST nearest genome in either)
+	for _ in range(300 if tier == 'quick' else 3000):
+		taxa = [{'parent': None, 'thr': rnd.choice([.5, .9, None]), 'report': True}]
+		for i in range(rnd.randrange(1, 5)):
+			taxa.append({'parent': rnd.randrange(len(taxa)), 'thr': rnd.choice([None, .05, .2, .3, .5]), 'report': True})
+		n = rnd.randrange(2, 7)
+		d0 = rnd.choice([0.0, .1, .25, .3])
+		dists = [d0 if rnd.random() < .6 else rnd.choice([.4, .6, d0 + .05]) for _ in range(n)]
+		yield {'taxa': taxa, 'genomes': [rnd.randrange(len(taxa)) for _ in range(n)], 'dists': dists, 'N': rnd.choice([1, 3, 10]), 'strict': rnd.random() < .7}
 
 
 def bounded(tier, seed):
@@ -50,5 +59,5 @@ def bounded(tier, seed):
 			if len(failures) >= 3:
 				break
 	return {'tool': 'real get_result_item on tie-heavy float32 distance vectors against sorted(range(n), key=(d, i))[:N]',
-	        'bound': 'all-equal vectors of 9 lengths up to 257; random vectors of <= 130 entries drawn from <= 3 values', 'cases': n,
+	        'bound': 'all-equal vectors of 9 lengths up to 257; random vectors of <= 130 entries drawn from <= 3 values; tied nearest genomes under different taxa / thresholds; strict and non-strict mode', 'cases': n,
 	        'failures': failures, 'samples': sample}
